@@ -7,6 +7,8 @@ REPO = os.environ.get('HEPH_REPO', '/repo')
 sys.path.insert(0, HERE)
 
 ID = 'C14'
+# modules whose functions must not keep state between calls (pyvc.statecheck.hidden_state_census, syntactic)
+HIDDEN_STATE_MODULES = ['src.compilers.base', 'src.compilers.java', 'src.compilers.kotlin', 'src.compilers.groovy', 'src.compilers.scala']
 LEVEL = 'proof'
 SIDECARS = ['compilers', 'utils_io']
 FUNCTIONS = ['src.utils.path2set',
@@ -33,6 +35,11 @@ replay_search = _b.replay_search
 
 def replay(payload):
     fi = payload.get('failing_input') or {}
+    if 'second-batch-on-same-compiler-object' in str(fi.get('check', '')):
+        n, out = _same_compiler_twice_check()
+        for v in out:
+            print('%s: expected %r, got %r' % (v['check'], v.get('expected'), v.get('actual')))
+        return not out
     if str(fi.get('check', '')).startswith('bounded[patterns-file'):
         n, out = _patterns_file_check()
         for v in out:
@@ -85,9 +92,48 @@ def _patterns_file_check():
     return n, out
 
 
+TWO_BATCHES = {
+    'java': ('src.compilers.java', 'JavaCompiler',
+             '/tmp/t1/src/alpha/Main.java:3: error: incompatible types: String cannot be converted to int\n  int x = "a";\n          ^\n1 error\n',
+             '/tmp/t2/src/beta/Main.java:5: error: cannot find symbol\n  foo();\n  ^\n1 error\n',
+             ['/tmp/t2/src/beta/Main.java']),
+    'kotlin': ('src.compilers.kotlin', 'KotlinCompiler',
+               '/tmp/t1/src/alpha/program.kt:3:9: error: type mismatch: inferred type is String but Int was expected\n',
+               '/tmp/t2/src/beta/program.kt:7:1: error: unresolved reference: foo\n',
+               ['/tmp/t2/src/beta/program.kt']),
+}
+
+
+def _same_compiler_twice_check():
+    """bounded: the result of analyze_compiler_output is a function of the output (and the filter patterns): a compiler object
+    that has already analysed one batch gives, on the next batch, what a fresh object gives -- exactly the files of that
+    batch"""
+    import importlib
+    for m in [k for k in sys.modules if k == 'src' or k.startswith('src.')]:
+        del sys.modules[m]
+    if REPO not in sys.path:
+        sys.path.insert(0, REPO)
+    out, n = [], 0
+    for lang, (mod, cls, out_a, out_b, files_b) in TWO_BATCHES.items():
+        C = getattr(importlib.import_module(mod), cls)
+        used, fresh = C('/tmp/t'), C('/tmp/t')
+        used.analyze_compiler_output(out_a)
+        got, _ = used.analyze_compiler_output(out_b)
+        exp, _ = fresh.analyze_compiler_output(out_b)
+        n += 2
+        g = {k: list(v) for k, v in (got or {}).items()}
+        e = {k: list(v) for k, v in (exp or {}).items()}
+        if g != e or sorted(e) != files_b:
+            out.append(dict(check='bounded[%s:second-batch-on-same-compiler-object]' % lang, function=mod + '.' + cls,
+                            expected=e, actual=g, files_of_the_batch=files_b))
+    return n, out
+
+
 def bounded(tier, seed, stop_first=False):
     r = _b.bounded(tier, seed, stop_first)
     n, extra = _patterns_file_check()
+    n2, extra2 = _same_compiler_twice_check()
+    n, extra = n + n2, extra + extra2
     r['evaluations'] = r.get('evaluations', 0) + n
     r.setdefault('violations', []).extend(extra)
     dropped = [v for v in r.get('violations', []) if any(t in v.get('check', '') for t in UNVALIDATED_GRAMMAR)]
